@@ -32,6 +32,29 @@ def qualname(obj) -> str:
     return f'{getattr(obj, "__module__", "?")}.{getattr(obj, "__qualname__", repr(obj))}'
 
 
+def mentions_symbolic_input(t, limit=200000) -> bool:
+    """True if the term contains an uninterpreted constant or function application (a symbolic input)."""
+    seen = set()
+    stack = [t]
+    n = 0
+    while stack:
+        x = stack.pop()
+        i = x.get_id()
+        if i in seen:
+            continue
+        seen.add(i)
+        n += 1
+        if n > limit:
+            return True
+        if z3.is_app(x):
+            if x.decl().kind() == z3.Z3_OP_UNINTERPRETED:
+                return True
+            stack.extend(x.children())
+        elif z3.is_quantifier(x):
+            return True
+    return False
+
+
 class Ob:
     """One obligation result (JSON-able)."""
 
@@ -116,16 +139,21 @@ class Collector:
               detail='', timeout_ms=None):
         """Discharge: assumptions /\\ negated_goal must be unsat."""
         terms = list(assumptions) + [negated_goal]
-        triv = z3.is_false(z3.simplify(negated_goal))
-        if triv:
+        # non-trivial: the obligation quantifies over at least one symbolic input (ground facts do not)
+        nontrivial = mentions_symbolic_input(negated_goal)
+        by_simplifier = z3.is_false(z3.simplify(negated_goal))
+        if by_simplifier:
             r, m, dt = 'unsat', None, 0.0
             self.stats['queries'] += 1
+            self.stats['by_simplifier'] = self.stats.get('by_simplifier', 0) + 1
         else:
             r, m, dt = self.solve(terms, timeout_ms)
         w = None
         if r == 'sat' and witness_fn is not None:
             w = witness_fn(m)
-        self.obs.append(Ob(oid, self.config, r, dt, not triv, w, detail).d)
+        o = Ob(oid, self.config, r, dt, nontrivial, w, detail).d
+        o['decided_by'] = 'z3.simplify (normal form)' if by_simplifier else 'solver'
+        self.obs.append(o)
         return r, m
 
     def reach(self, oid, assumptions, detail='', witness_fn=None, timeout_ms=None):
@@ -246,7 +274,7 @@ def finish(pid: str, tier: str, seed: int, results: List[dict], t0: float, level
     obs = [o for r in results for o in r['obs']]
     errors = [(r['config'], r['error']) for r in results if r.get('error')]
     functions: Dict[str, str] = {}
-    stats = dict(paths=0, branch_queries=0, queries=0, solver_time_s=0.0, realised=0)
+    stats = dict(paths=0, branch_queries=0, queries=0, solver_time_s=0.0, realised=0, by_simplifier=0)
     for r in results:
         functions.update(r.get('functions', {}))
         for k in stats:
@@ -326,10 +354,10 @@ def finish(pid: str, tier: str, seed: int, results: List[dict], t0: float, level
     distinct = len({(o['oid'], o['config']) for o in safety if o['nontrivial']})
     samples = []
     seen = set()
-    for o in safety:
-        if o['oid'] not in seen and o['nontrivial']:
+    for o in sorted(safety, key=lambda o: not o['nontrivial']):
+        if o['oid'] not in seen:
             seen.add(o['oid'])
-            samples.append({k: o[k] for k in ('oid', 'config', 'verdict', 't', 'detail')})
+            samples.append({k: o.get(k) for k in ('oid', 'config', 'verdict', 't', 'detail', 'decided_by')})
     for o in obs:
         if o['verdict'] == 'sat' and len(samples) < 60:
             samples.append({k: o.get(k) for k in ('oid', 'config', 'verdict', 'witness', 'replay',
@@ -337,13 +365,15 @@ def finish(pid: str, tier: str, seed: int, results: List[dict], t0: float, level
     cov = dict(
         evaluations=stats['queries'] + stats['branch_queries'],
         distinct_nontrivial=distinct,
-        rule=rule or ('one evaluation = one SMT query (z3); an obligation = (configuration, assertion) '
-                      'pair decided for ALL values of the symbolic inputs; it is counted non-trivial '
-                      'when the negated goal is not reduced to false by z3.simplify before solving; '
-                      'distinct = distinct (obligation id, configuration) pairs'),
+        rule=rule or ('one evaluation = one SMT query (branch feasibility or goal); an obligation = (configuration, '
+                      'assertion) pair decided for ALL values of the symbolic inputs; it is counted non-trivial when '
+                      'its negated goal mentions at least one symbolic input (ground facts about concrete tables are '
+                      'trivial); distinct = distinct (obligation id, configuration) pairs; decided_by_simplifier counts '
+                      'the goals that z3.simplify already reduced to false after the proxies\' normal forms'),
         samples=samples[:60],
         obligations=len(safety),
         discharged=n_dis,
+        decided_by_simplifier=stats['by_simplifier'],
         sat=n_sat,
         inconclusive=n_inc,
         reachability_witnesses=n_reach,
